@@ -267,7 +267,26 @@ def check_inline_idiom(ctx: Ctx, bf: FuncInfo):
         app = [c for c in q.method_calls(l, "append") if c.args and isinstance(c.args[0], ast.Tuple) and [norm(x) for x in c.args[0].elts] == [s, new_e]]
         if upd and app and l.body.index(sub[0]) < l.body.index(upd[0]):
             good = (l, norm(app[0].func.value))
-    ctx.check(good is not None, "RW-INLINE", bf, "sequential inlining of the callee body", "e' = e[map]; map[s] = e'; keep (s, e')", "the callee's intermediate definitions are not inlined into its return expressions before the call-site substitution (free callee locals would leak into the caller)", bf.node)
+    if good is None:
+        # look for the same idiom with the substitution nested in the store (`d[s] = e.xreplace(d)`), else undecided
+        for l in loops:
+            s, e = (norm(x) for x in l.target.elts)
+            st = [n for n in l.body if isinstance(n, ast.Assign) and isinstance(n.targets[0], ast.Subscript) and norm(n.targets[0].slice) == s]
+            for n in st:
+                mp = norm(n.targets[0].value)
+                v = q.value_at(l.body, n, n.value) or n.value
+                if isinstance(v, ast.Call) and isinstance(v.func, ast.Attribute) and v.func.attr in ("subs", "xreplace") and norm(v.func.value) == e and v.args and norm(v.args[0]) == mp:
+                    app = [c for c in q.method_calls(l, "append") if c.args and isinstance(c.args[0], ast.Tuple) and len(c.args[0].elts) == 2 and norm(c.args[0].elts[0]) == s]
+                    if app:
+                        good = (l, norm(app[0].func.value))
+    if good is None:
+        any_sub = any(isinstance(c.func, ast.Attribute) and c.func.attr in ("subs", "xreplace") for l in loops for c in q.calls(l))
+        if any_sub or not loops:
+            ctx.undecided(bf.short, "sequential inlining of the callee body: the `e' = e[map]; map[s] = e'; keep (s, e')` idiom is written in a form outside the tables")
+        else:
+            ctx.fail("RW-INLINE", bf, "sequential inlining of the callee body", "the callee's intermediate definitions are not inlined into its return expressions before the call-site substitution (free callee locals would leak into the caller)", bf.node)
+    else:
+        ctx.ok("RW-INLINE", bf, "sequential inlining of the callee body", "e' = e[map]; map[s] = e'; keep (s, e')", bf.node)
     if good is None:
         return
     lst = good[1]
